@@ -1,9 +1,150 @@
+import SwayVerif.Model.Asm
+import SwayVerif.Driver.AsmText
 import SwayVerif.Driver.Util
-/-! Driver for C08 (stub — replace `answer`; keep `run`). -/
-namespace SwayVerif.Driver.C08
-open SwayVerif.Driver
+/-!
+Driver for C08 (register allocation). Cases (see `harness/src/bin/sv_c08.rs`):
 
-def answer (_line : String) : String := "unimplemented agree=0 prop=0"
+* `alloc <ops> ;; K=<k> stages=ok live=.. edges=.. cops=.. clive=.. cedges=.. status=ok final=.. assign=.. spilled=.. dc=..`
+  agree = the model's successors, live_out table, interference edges and coalescing result equal the
+  real ones (the colours are NOT compared); prop = `validAlloc` on the real final assignment with the
+  liveness of the real final ops recomputed by the model, and `validSlots` for every spill round.
+* `slots <locals> <regs> ;; <v=off,..>`, `assign <n> <edges> <stack> K=<k> ;; ok <v=k,..>|err`, `vm .. ;; pass|fail`
+-/
+namespace SwayVerif.Driver.C08
+open SwayVerif.Driver SwayVerif.Driver.AsmText SwayVerif.Asm
+
+def get (kv : List (String × String)) (k : String) : Option String := kv.lookup k
+
+def sizeClass (n : Nat) : String :=
+  if n < 20 then "lt20" else if n < 100 then "lt100" else if n < 400 then "lt400" else "ge400"
+
+/-- maximal number of simultaneously live registers -/
+def pressure (lo : List RSet) : Nat := lo.foldl (fun m s => max m s.length) 0
+
+def pressureClass (p : Nat) (K : Nat) : String :=
+  if p ≤ K / 2 then "low" else if p ≤ K then "mid" else if p ≤ 48 then "high" else "gt48"
+
+def colourFn (a : List (Reg × Nat)) (r : Reg) : Option Nat := a.lookup r
+
+/-- one spill round `<ops>@<v=slot,..>`: interfering spilled registers have slots apart -/
+def roundOk (s : String) : Option Bool :=
+  match s.splitOn "@" with
+  | [o, sl] => do
+    let ops ← parseOps? o
+    let ops ← withSucc ops
+    let slots ← parseAssign? sl
+    let lo ← liveness true ops
+    pure (validSlots ops lo slots)
+  | _ => none
+
+def answerAlloc (c : List String) (kv : List (String × String)) : String :=
+  match c with
+  | [opsText] =>
+    match parseOps? opsText, (get kv "K").bind String.toNat? with
+    | some ops0, some K =>
+      match withSucc ops0 with
+      | none => "nosucc agree=0 prop=1"
+      | some ops =>
+        let succOk := ops.map (·.succ) == ops0.map (·.succ)
+        match liveness true ops with
+        | none => "nofix agree=0 prop=1"
+        | some lo =>
+          let g := interference ops lo
+          let co := coalesce K ops lo g
+          let flags : List Bool := match get kv "stages" with
+            | some "ok" =>
+              match (get kv "live").bind parseSets?, (get kv "edges").bind parseEdges?,
+                (get kv "cops").bind parseOps?, (get kv "clive").bind parseSets?,
+                (get kv "cedges").bind parseEdges? with
+              | some rl, some re, some rco, some rcl, some rce =>
+                [sameSets lo rl, canonEdges g == canonEdges re,
+                  (match withSucc co.ops with
+                      | some mo => sameOps mo rco
+                      | none => false),
+                  sameSets co.liveOut rcl, canonEdges co.graph == canonEdges rce]
+              | _, _, _, _, _ => [false]
+            | _ => [false]
+          let stagesAgree := flags.all id
+          let fl := "".intercalate (flags.map b01)
+          let p := pressure lo
+          let info := s!"succ={b01 succOk} stages={fl} size={sizeClass ops.length} pressure={pressureClass p K} src={(get kv "src").getD "?"}"
+          match get kv "status" with
+          | some "ok" =>
+            match (get kv "final").bind parseOps?, (get kv "assign").bind parseAssign?, get kv "spilled" with
+            | some fin0, some asg, some sp =>
+              match withSucc fin0 with
+              | none => s!"nosucc-final agree=0 prop=1 {info}"
+              | some fin =>
+                let finSucc := fin.map (·.succ) == fin0.map (·.succ)
+                match liveness true fin with
+                | none => s!"nofix-final agree=0 prop=1 {info}"
+                | some lof =>
+                  let va := validAlloc fin lof (colourFn asg) K
+                  let rounds := if sp = "-" then [] else sp.splitOn "#"
+                  let rs := rounds.map roundOk
+                  let slotsOk := rs.all fun r => r == some true
+                  let parsedOk := rs.all fun r => r.isSome
+                  let dc := get kv "dc" == some "1"
+                  let agree := succOk && finSucc && stagesAgree && dc && parsedOk
+                  s!"ok agree={b01 agree} prop={b01 (va && slotsOk)} valid={b01 va} slots={b01 slotsOk} fin={b01 finSucc}{b01 dc}{b01 parsedOk} rounds={rounds.length} coalesced={ops.length - co.ops.length} {info}"
+            | _, _, _ => s!"bad-final agree=0 prop=1 {info}"
+          | some "err" => s!"err agree={b01 (succOk && stagesAgree)} prop=1 rounds=err {info}"
+          | _ => s!"panic agree=0 prop=1 {info}"
+    | _, _ => "bad-ops agree=0 prop=1"
+  | _ => "bad-case agree=0 prop=1"
+
+def answerSlots (c : List String) (i : List String) : String :=
+  match c, i with
+  | [locals, regs], [res] =>
+    match locals.toNat?, parseRegs? regs, parseAssign? res with
+    | some l, some rs, some impl =>
+      let m := spillOffsets rs l
+      let agree := match m with
+        | some mo => (mo.map fun e => (Reg.key e.1, e.2)) == (impl.map fun e => (Reg.key e.1, e.2))
+        | none => false
+      -- distinct registers: slots 8 apart; every spilled register has a slot at or above `locals`
+      let apart := impl.all fun a => impl.all fun b => a.1 == b.1 || slotsApart a.2 b.2
+      let total := rs.all fun r => (impl.lookup r).any fun o => decide (l ≤ o) && (o - l) % 8 == 0
+      s!"{impl.length} agree={b01 agree} prop={b01 (apart && total)} n={sizeClass rs.length}"
+    | _, _, _ => "bad-slots agree=0 prop=1"
+  | _, _ => "bad-slots agree=0 prop=1"
+
+def answerAssign (c : List String) (i : List String) : String :=
+  match c with
+  | [_n, edges, stack, k] =>
+    match parseEdges? edges, parseRegs? stack, (get (kvOf [k]) "K").bind String.toNat? with
+    | some g, some st, some K =>
+      let m := assign g K st
+      match i with
+      | ["ok", res] =>
+        match parseAssign? res with
+        | some impl =>
+          let col := colourFn impl
+          let proper := g.all fun e => e.1 == e.2 || match col e.1, col e.2 with
+            | some a, some b => a != b
+            | _, _ => true
+          let total := st.all fun r => (col r).any fun c => decide (c < K)
+          let exact := match m with
+            | some pool => impl.all fun e => colourOf pool e.1 == some e.2
+            | none => false
+          s!"ok agree={b01 m.isSome} prop={b01 (proper && total)} exact={b01 exact} res=ok"
+        | none => "bad-assign agree=0 prop=1"
+      | ["err"] => s!"err agree={b01 m.isNone} prop=1 res=err"
+      | _ => "panic agree=0 prop=1 res=panic"
+    | _, _, _ => "bad-assign agree=0 prop=1"
+  | _ => "bad-assign agree=0 prop=1"
+
+def answer (line : String) : String :=
+  let (c, i) := splitCase line
+  match c with
+  | "alloc" :: rest => answerAlloc rest (kvOf i)
+  | "slots" :: rest => answerSlots rest i
+  | "assign" :: rest => answerAssign rest i
+  | "vm" :: _ => match i with
+    | ["pass"] => "vm agree=1 prop=1 vm=pass"
+    | ["fail"] => "vm agree=1 prop=0 vm=fail"
+    | _ => "vm agree=0 prop=1 vm=builderr"
+  | _ => "bad-op agree=0 prop=0"
 
 def run : IO Unit := do
   lineLoop (← IO.getStdin) (← IO.getStdout) answer
